@@ -15,10 +15,10 @@ func init() {
 		run: runC13,
 		explanation: "Decided (structural, for every batch and index): " +
 			"C13.convmap — in the conversion package every field of a freshly built library/protobuf struct that is initialised from a field of a source struct takes it from the field of the same name (reviewed exceptions: Result.Count <-> Result.TotalCount), and every exported field of each destination type built in a function is initialised there; " +
-			"C13.kindmap — the oneof switch of the expression conversion has a case for every oneof wrapper, each case returns the library node of the matching kind, operands are converted from the wrapper's own operand list and appended in order; " +
-			"C13.loop — in the gRPC handler each iteration over the request's queries appends exactly one element at the end of the response, that element is ToProtobufResult(Execute(ToQuery(current query)), id), no path finishes an iteration without appending, and the response is returned only after the loop; " +
+			"C13.kindmap — the oneof switch of the expression conversion has a case for every oneof wrapper, each case returns the library node of the matching kind, operands are converted from the wrapper's own operand list and appended in order (a case that returns what a helper given the wrapper returns is judged on the helper's body); " +
+			"C13.loop — in the gRPC handler each iteration over the request's queries appends exactly one element at the end of the response, that element is ToProtobufResult(Execute(ToQuery(current query)), id) — built in the loop or by a helper whose parameters are bound to the current query / range index / id at the call —, no path finishes an iteration without appending, and the response is returned only after the loop; " +
 			"C13.id — the id is the query's Id, replaced by int32(range index + 1) exactly on the branch where Id == 0; " +
-			"C13.nopartial — every error return of the handler carries a nil response, and conversion/execution errors (also of nested operands) are propagated; " +
+			"C13.nopartial — every error return of the handler carries a nil response, and conversion/execution errors (also of nested operands, also when they arise in a per-query helper of the handler, whose error must then end the handler the same way) are propagated; " +
 			"C13.grpcpath — both statement types hand newRows the (converted) result and the bound query's group-by list. " +
 			"NOT decided: equality of counts/groups with the library's answer (values; follows from the field mapping being a bijection, not checked further); losslessness of the protobuf wire encoding (trusted).",
 		assumptions: []string{"protobuf-go encodes/decodes messages losslessly", "grpc-go delivers the handler's response/error", "go/ssa, dominance"},
@@ -183,149 +183,33 @@ func c13Kindmap(c *Ctx) {
 		okv := extractOf(ta, 1)
 		val := extractOf(ta, 0)
 		key := fmt.Sprintf("%s: case %s", safeFname(fn), w.Obj().Name())
-		nRet, bad := 0, ""
-		var node *ssa.Alloc
-		allInstrs(fn, func(j ssa.Instruction) {
-			if !isSuccessReturn(j) || okv == nil || !knownTrue(okv, j) {
-				return
-			}
-			nRet++
-			v := retVals(j.(*ssa.Return))[0]
-			mi, isMI := v.(*ssa.MakeInterface)
-			if !isMI {
-				bad = "returns something other than a new node"
-				return
-			}
-			al, _ := peel(mi.X).(*ssa.Alloc)
-			got := namedOf(mi.X.Type())
-			if got == nil || got.Obj().Name() != want {
-				g := "?"
-				if got != nil {
-					g = got.Obj().Name()
-				}
-				bad = "returns a " + g + " for a " + w.Obj().Name() + " (expected " + want + ")"
-			}
-			node = al
-		})
-		if nRet == 0 {
-			c.r.bad(rule, key, "no successful return in this case of the oneof switch", []string{c.w.ipos(i)})
+		// the case: the instructions of the switch function where this type assertion is known to have succeeded, or —
+		// where the case hands its wrapper to a helper and returns what that returns — the body of the helper
+		res := c13KindCase(c, fn, fn,
+			func(j ssa.Instruction) bool { return okv != nil && knownTrue(okv, j) },
+			func(x ssa.Value) bool { return val != nil && derivesFrom(x, val) },
+			want, w.Obj().Name(), 0)
+		site := c.w.ipos(i)
+		sites := []string{site}
+		if res.site != "" && res.site != site {
+			sites = append(sites, res.site)
+		}
+		if res.nRet == 0 {
+			c.r.bad(rule, key, "no successful return in this case of the oneof switch", sites)
 			return
 		}
-		if bad != "" {
-			c.r.bad(rule, key, "wrong node kind: "+bad, []string{c.w.ipos(i)})
+		if res.bad != "" {
+			c.r.bad(rule, key, "wrong node kind: "+res.bad, sites)
 			return
 		}
-		// operands: every toExpr call in this case converts an operand reached from this wrapper value, and its result is stored into the node
-		okOps := true
-		why := ""
-		nOps := 0
-		allInstrs(fn, func(j ssa.Instruction) {
-			call, ok := j.(*ssa.Call)
-			if !ok || calleeFunc(&call.Call) != fn || okv == nil || !knownTrue(okv, call) {
-				return
-			}
-			nOps++
-			if val == nil || !derivesFrom(call.Call.Args[0], val) {
-				okOps, why = false, "operand is not taken from this case's own wrapper"
-			}
-			res := extractOf(call, 0)
-			stored := false
-			if res != nil {
-				for _, u := range usesOf(res) {
-					switch x := u.(type) {
-					case *ssa.Store:
-						// direct: node.Expr = res ; or element of the variadic array of an append
-						if fa, ok := x.Addr.(*ssa.FieldAddr); ok && node != nil && peel(fa.X) == ssa.Value(node) {
-							stored = true
-						}
-						if ia, ok := x.Addr.(*ssa.IndexAddr); ok {
-							// varargs array -> slice -> append(load node.Exprs, …) -> store node.Exprs
-							for _, r1 := range referrers(ia.X) {
-								sl, ok := r1.(*ssa.Slice)
-								if !ok {
-									continue
-								}
-								for _, r2 := range referrers(sl) {
-									ac, ok := r2.(*ssa.Call)
-									if !ok {
-										continue
-									}
-									if b, ok := ac.Call.Value.(*ssa.Builtin); !ok || b.Name() != "append" || ac.Call.Args[1] != ssa.Value(sl) {
-										continue
-									}
-									base := path(ac.Call.Args[0])
-									for _, r3 := range referrers(ac) {
-										if st, ok := r3.(*ssa.Store); ok {
-											dp := path(st.Addr)
-											if dp.lastField() != nil && dp.lastField() == base.lastField() && node != nil && peel(dp.Root) == ssa.Value(node) {
-												stored = true
-											}
-										}
-									}
-								}
-							}
-						}
-					}
-				}
-			}
-			if !stored {
-				okOps, why = false, "a converted operand is not stored (appended in order) into the node that is returned"
-			}
-		})
-		// operands converted by a helper: h(v.X.Exprs) whose result is stored into the node
-		allInstrs(fn, func(j ssa.Instruction) {
-			call, ok := j.(*ssa.Call)
-			if !ok || okv == nil || !knownTrue(okv, call) {
-				return
-			}
-			h := calleeFunc(&call.Call)
-			if h == nil || h == fn || c.w.pkgPathOf(h) != pkgConvert || h.Blocks == nil {
-				return
-			}
-			fromVal := false
-			for _, a := range call.Call.Args {
-				if val != nil && derivesFrom(a, val) {
-					fromVal = true
-				}
-			}
-			if !fromVal {
-				return
-			}
-			res := extractOf(call, 0)
-			if res == nil {
-				return
-			}
-			nOps++
-			isToExpr := func(ec *ssa.Call) (ssa.Value, bool) {
-				if calleeFunc(&ec.Call) != fn || len(ec.Call.Args) != 1 {
-					return nil, false
-				}
-				return ec.Call.Args[0], true
-			}
-			if ok, w := elementLoop(c, fn, res, func(x ssa.Value) bool { return val != nil && derivesFrom(x, val) }, isToExpr, 0); !ok {
-				okOps, why = false, "the helper that converts the operands does not convert every operand in order: "+w
-				return
-			}
-			stored := false
-			for _, u := range usesOf(res) {
-				if st, ok := u.(*ssa.Store); ok {
-					if fa, ok := st.Addr.(*ssa.FieldAddr); ok && node != nil && peel(fa.X) == ssa.Value(node) {
-						stored = true
-					}
-				}
-			}
-			if !stored {
-				okOps, why = false, "the converted operands are not stored into the node that is returned"
-			}
-		})
 		isLeaf := strings.HasSuffix(want, "Equal")
-		if !isLeaf && nOps == 0 {
-			okOps, why = false, "operator node without converted operands"
+		if !isLeaf && res.nOps == 0 {
+			res.okOps, res.why = false, "operator node without converted operands"
 		}
-		if okOps {
-			c.r.ok(rule, key, fmt.Sprintf("-> %s, %d operand conversion site(s) stored into the node", want, nOps), c.w.ipos(i))
+		if res.okOps {
+			c.r.ok(rule, key, fmt.Sprintf("-> %s, %d operand conversion site(s) stored into the node", want, res.nOps), site)
 		} else {
-			c.r.bad(rule, key, why, []string{c.w.ipos(i)})
+			c.r.bad(rule, key, res.why, sites)
 		}
 	})
 	for _, w := range wrappers {
@@ -334,6 +218,230 @@ func c13Kindmap(c *Ctx) {
 		}
 	}
 	c.r.min[rule] = len(wrappers)
+}
+
+// kindCase is what c13KindCase found in one case of the oneof switch.
+type kindCase struct {
+	nRet  int    // successful returns (followed into the helpers the case delegates to)
+	nOps  int    // operand conversion sites
+	bad   string // a return that does not yield a new node of the expected kind
+	okOps bool   // every operand conversion converts one of this wrapper's operands and its result goes into the node
+	why   string
+	site  string // where, if that is in a helper
+}
+
+// c13KindCase evaluates one case of the oneof switch of the expression conversion te. The case consists of the
+// instructions of f selected by in (for te itself: those dominated by the successful type assertion; for a helper the
+// case delegates to: all of them); fromVal recognises values taken from the case's wrapper (the asserted value, or the
+// helper's parameter bound to it). A return that hands on both results of a call to a module helper that is given the
+// wrapper (`return notToExpr(v)`), or a successful return of such a helper's value, is successful exactly where the helper
+// returns successfully, so the helper's body is judged in its place — same expected node kind, same operand rules.
+func c13KindCase(c *Ctx, te, f *ssa.Function, in func(ssa.Instruction) bool, fromVal func(ssa.Value) bool, want, wname string, depth int) kindCase {
+	res := kindCase{okOps: true}
+	var node *ssa.Alloc
+	delegated := map[*ssa.Call]bool{}
+	// follow: the case returns what helper call dc yields
+	follow := func(dc *ssa.Call, at ssa.Instruction) {
+		h := calleeFunc(&dc.Call)
+		switch {
+		case h == te:
+			res.bad, res.site = "returns the conversion of another expression instead of a new "+want+" for a "+wname, c.w.ipos(at)
+			return
+		case depth >= 2:
+			res.bad, res.site = "the node is built too deep in helpers for the rule to follow", c.w.ipos(at)
+			return
+		}
+		var pars []ssa.Value
+		for k, a := range dc.Call.Args {
+			if k < len(h.Params) && fromVal(a) {
+				pars = append(pars, h.Params[k])
+			}
+		}
+		if len(pars) == 0 {
+			res.bad, res.site = "delegates to "+safeFname(h)+" without handing it this case's wrapper", c.w.ipos(at)
+			return
+		}
+		sub := c13KindCase(c, te, h, func(ssa.Instruction) bool { return true }, func(x ssa.Value) bool {
+			for _, p := range pars {
+				if derivesFrom(x, p) {
+					return true
+				}
+			}
+			return false
+		}, want, wname, depth+1)
+		res.nRet += sub.nRet - 1 // the delegating return itself was counted by the caller
+		if sub.nRet == 0 {
+			res.bad, res.site = safeFname(h)+", which this case delegates to, never returns successfully", c.w.pos(h.Pos())
+		}
+		res.nOps += sub.nOps
+		if sub.bad != "" && res.bad == "" {
+			res.bad, res.site = sub.bad, sub.site
+		}
+		if !sub.okOps && res.okOps {
+			res.okOps, res.why, res.site = false, sub.why, sub.site
+		}
+	}
+	// helperCall: v is result #idx of a call to a module helper with a body
+	helperCall := func(v ssa.Value, idx int) *ssa.Call {
+		e, ok := v.(*ssa.Extract)
+		if !ok || e.Index != idx {
+			return nil
+		}
+		dc, ok := e.Tuple.(*ssa.Call)
+		if !ok {
+			return nil
+		}
+		h := calleeFunc(&dc.Call)
+		if h == nil || !c.w.inModule(h) || h.Blocks == nil {
+			return nil
+		}
+		return dc
+	}
+	allInstrs(f, func(j ssa.Instruction) {
+		ret, isRet := j.(*ssa.Return)
+		if !isRet || isRecoverBlockReturn(ret) || len(ret.Results) != 2 || !in(j) {
+			return
+		}
+		rv := retVals(ret)
+		if dc := helperCall(rv[0], 0); dc != nil && (helperCall(rv[1], 1) == dc || isSuccessReturn(j)) {
+			// `return h(v)`, or `return e, nil` with e the helper's value (its error having been dealt with: C13.nopartial)
+			res.nRet++
+			delegated[dc] = true
+			follow(dc, j)
+			return
+		}
+		if !isSuccessReturn(j) {
+			return
+		}
+		res.nRet++
+		mi, isMI := rv[0].(*ssa.MakeInterface)
+		if !isMI {
+			res.bad, res.site = "returns something other than a new node", c.w.ipos(j)
+			return
+		}
+		al, _ := peel(mi.X).(*ssa.Alloc)
+		got := namedOf(mi.X.Type())
+		if got == nil || got.Obj().Name() != want {
+			g := "?"
+			if got != nil {
+				g = got.Obj().Name()
+			}
+			res.bad, res.site = "returns a "+g+" for a "+wname+" (expected "+want+")", c.w.ipos(j)
+		}
+		node = al
+	})
+	if res.nRet == 0 || res.bad != "" {
+		return res
+	}
+	fail := func(why string, at ssa.Instruction) {
+		if res.okOps {
+			res.okOps, res.why = false, why
+			if f != te {
+				res.site = c.w.ipos(at)
+			}
+		}
+	}
+	// operands: every toExpr call in this case converts an operand reached from this wrapper value, and its result is stored into the node
+	allInstrs(f, func(j ssa.Instruction) {
+		call, ok := j.(*ssa.Call)
+		if !ok || calleeFunc(&call.Call) != te || !in(call) || delegated[call] {
+			return
+		}
+		res.nOps++
+		if !fromVal(call.Call.Args[0]) {
+			fail("operand is not taken from this case's own wrapper", call)
+		}
+		r0 := extractOf(call, 0)
+		stored := false
+		if r0 != nil {
+			for _, u := range usesOf(r0) {
+				switch x := u.(type) {
+				case *ssa.Store:
+					// direct: node.Expr = res ; or element of the variadic array of an append
+					if fa, ok := x.Addr.(*ssa.FieldAddr); ok && node != nil && peel(fa.X) == ssa.Value(node) {
+						stored = true
+					}
+					if ia, ok := x.Addr.(*ssa.IndexAddr); ok {
+						// varargs array -> slice -> append(load node.Exprs, …) -> store node.Exprs
+						for _, r1 := range referrers(ia.X) {
+							sl, ok := r1.(*ssa.Slice)
+							if !ok {
+								continue
+							}
+							for _, r2 := range referrers(sl) {
+								ac, ok := r2.(*ssa.Call)
+								if !ok {
+									continue
+								}
+								if b, ok := ac.Call.Value.(*ssa.Builtin); !ok || b.Name() != "append" || ac.Call.Args[1] != ssa.Value(sl) {
+									continue
+								}
+								base := path(ac.Call.Args[0])
+								for _, r3 := range referrers(ac) {
+									if st, ok := r3.(*ssa.Store); ok {
+										dp := path(st.Addr)
+										if dp.lastField() != nil && dp.lastField() == base.lastField() && node != nil && peel(dp.Root) == ssa.Value(node) {
+											stored = true
+										}
+									}
+								}
+							}
+						}
+					}
+				}
+			}
+		}
+		if !stored {
+			fail("a converted operand is not stored (appended in order) into the node that is returned", call)
+		}
+	})
+	// operands converted by a helper: h(v.X.Exprs) whose result is stored into the node
+	allInstrs(f, func(j ssa.Instruction) {
+		call, ok := j.(*ssa.Call)
+		if !ok || !in(call) || delegated[call] {
+			return
+		}
+		h := calleeFunc(&call.Call)
+		if h == nil || h == te || c.w.pkgPathOf(h) != pkgConvert || h.Blocks == nil {
+			return
+		}
+		fromV := false
+		for _, a := range call.Call.Args {
+			if fromVal(a) {
+				fromV = true
+			}
+		}
+		if !fromV {
+			return
+		}
+		r0 := extractOf(call, 0)
+		if r0 == nil {
+			return
+		}
+		res.nOps++
+		isToExpr := func(ec *ssa.Call) (ssa.Value, bool) {
+			if calleeFunc(&ec.Call) != te || len(ec.Call.Args) != 1 {
+				return nil, false
+			}
+			return ec.Call.Args[0], true
+		}
+		if ok, w := elementLoop(c, f, r0, fromVal, isToExpr, 0); !ok {
+			fail("the helper that converts the operands does not convert every operand in order: "+w, call)
+			return
+		}
+		stored := false
+		for _, u := range usesOf(r0) {
+			if st, ok := u.(*ssa.Store); ok {
+				if fa, ok := st.Addr.(*ssa.FieldAddr); ok && node != nil && peel(fa.X) == ssa.Value(node) {
+					stored = true
+				}
+			}
+		}
+		if !stored {
+			fail("the converted operands are not stored into the node that is returned", call)
+		}
+	})
+	return res
 }
 
 func c13Loop(c *Ctx) {
@@ -366,13 +474,33 @@ func c13Loop(c *Ctx) {
 			elems = append(elems, u)
 		}
 	})
+	if len(elems) > 1 {
+		// the request's queries may also be read elsewhere (by a validated id, say): the current query is the one
+		// read at a loop counter
+		var atCounter []*ssa.UnOp
+		for _, u := range elems {
+			if b, _ := lin(u.X.(*ssa.IndexAddr).Index); b != nil {
+				if _, isCtr := phiLower(b); isCtr {
+					atCounter = append(atCounter, u)
+				}
+			}
+		}
+		if len(atCounter) == 1 {
+			elems = atCounter
+		}
+	}
 	if len(elems) != 1 {
 		c.r.undecided("C13.loop", name, fmt.Sprintf("expected one load of the current query from req.Queries, found %d", len(elems)), site)
 		return
 	}
 	pbq := elems[0]
 	idx := pbq.X.(*ssa.IndexAddr).Index
-	header := idx.(ssa.Instruction).Block() // block computing the loop index
+	idxIns, isIns := idx.(ssa.Instruction)
+	if !isIns {
+		c.r.bad("C13.loop", name, "the only query read from the request is at a fixed position, not the element the loop is at: the other queries are never answered", []string{c.w.ipos(pbq)})
+		return
+	}
+	header := idxIns.Block() // block computing the loop index
 	if b, ok := idx.(*ssa.BinOp); ok {
 		if phi, ok := b.X.(*ssa.Phi); ok {
 			header = phi.Block()
@@ -426,36 +554,9 @@ func c13Loop(c *Ctx) {
 		c.r.bad("C13.loop", name+": append", "the response's result list is not extended by appending exactly one element at its end", []string{c.w.ipos(ap)})
 		return
 	}
-	// provenance chain
-	chainOK, why := false, ""
-	var qidArg ssa.Value
-	if call, ok := elem.(*ssa.Call); ok && calleeFunc(&call.Call) == c.a.ToPBResult {
-		qidArg = call.Call.Args[1]
-		if e1, ok := call.Call.Args[0].(*ssa.Extract); ok && e1.Index == 0 {
-			if ex, ok := e1.Tuple.(*ssa.Call); ok && calleeFunc(&ex.Call) == c.a.Execute {
-				if e2, ok := ex.Call.Args[1].(*ssa.Extract); ok && e2.Index == 0 {
-					if tq, ok := e2.Tuple.(*ssa.Call); ok && calleeFunc(&tq.Call) == c.a.ToQuery {
-						if tq.Call.Args[0] == ssa.Value(pbq) {
-							chainOK = true
-						} else {
-							why = "the query converted is not the current element of the request"
-						}
-					} else {
-						why = "the executed query is not the conversion of the current request element"
-					}
-				} else {
-					why = "the executed query is not the conversion result"
-				}
-			} else {
-				why = "the converted result is not what Execute returned for this query"
-			}
-		} else {
-			why = "the converted result is not what Execute returned for this query"
-		}
-	} else {
-		why = "the appended element is not ToProtobufResult(...)"
-	}
-	c.r.check(chainOK, "C13.loop", name+": element", "appended element = ToProtobufResult(Execute(ToQuery(current query)), id)", "the element appended for a query is not that query's own converted result: "+why, c.w.ipos(ap))
+	// provenance chain and id, followed into a per-query helper of the handler's package if there is one
+	el := c13Element(c, &qctx{f: fn, cur: pbq, idx: idx}, elem)
+	c.r.check(el.chainOK, "C13.loop", name+": element", "appended element = ToProtobufResult(Execute(ToQuery(current query)), id)", "the element appended for a query is not that query's own converted result: "+el.why, c.w.ipos(ap))
 	// every iteration appends: no path from the element load back to the loop header avoiding the append
 	hdrFirst := header.Instrs[0]
 	if p := c.fc.pathAvoiding(fn, pbq, func(i ssa.Instruction) bool { return i == hdrFirst }, func(i ssa.Instruction) bool { return i == ssa.Instruction(ap) }); p != nil {
@@ -470,8 +571,7 @@ func c13Loop(c *Ctx) {
 		c.r.ok("C13.loop", name+": return after loop", "the response is returned only once the loop is done", site)
 	}
 	// ---- id
-	idOK, idWhy := c13IDValue(c, qidArg, func(x ssa.Value) bool { return derivesFrom(x, pbq) }, idx, 0, 0)
-	c.r.check(idOK, "C13.id", name, "id = query.Id, or int32(range index + 1) on the Id == 0 branch", idWhy, c.w.ipos(ap))
+	c.r.check(el.idOK, "C13.id", name, "id = query.Id, or int32(range index + 1) on the Id == 0 branch", el.idWhy, c.w.ipos(ap))
 	// ---- nopartial
 	n := 0
 	allInstrs(fn, func(i ssa.Instruction) {
@@ -483,25 +583,35 @@ func c13Loop(c *Ctx) {
 			"an error is returned together with a (partial) response", c.w.ipos(i))
 	})
 	k := 0
-	scope := []*ssa.Function{fn}
-	for _, f := range c.w.ModFuncs {
-		if c.w.pkgPathOf(f) == pkgConvert {
-			scope = append(scope, f)
+	// conversions and execution: ToQuery, toExpr, Execute, and any other error-returning function of the conversion package
+	isSrc := func(callee *ssa.Function) bool {
+		isConv := c.w.pkgPathOf(callee) == pkgConvert && callee.Signature.Results().Len() == 2 && isErrorType(callee.Signature.Results().At(1).Type())
+		return callee == c.a.ToQuery || callee == c.a.ToExpr || callee == c.a.Execute || isConv
+	}
+	// in the handler's code (the handler and the helpers of its package it calls): the error ends the request
+	hscope, sites := handlerErrSites(c, fn, isSrc)
+	for _, s := range sites {
+		k++
+		out := errEndsRequest(c, fn, hscope, s.f, s.call, 0)
+		key := fmt.Sprintf("%s: %s#%d", safeFname(s.f), safeFname(s.callee), k)
+		if out.ok {
+			c.r.ok("C13.nopartial", key, out.msg, c.w.ipos(s.call))
+		} else {
+			c.r.bad("C13.nopartial", key, "an invalid (sub)query does not make the call fail: "+out.msg, []string{c.w.ipos(out.site)}, c.fc.witnessStrings(out.witness)...)
 		}
 	}
-	for _, f := range scope {
+	// in the conversion package: the error is propagated to the caller
+	for _, f := range c.w.ModFuncs {
+		if c.w.pkgPathOf(f) != pkgConvert {
+			continue
+		}
 		allInstrs(f, func(i ssa.Instruction) {
 			call, ok := i.(*ssa.Call)
 			if !ok {
 				return
 			}
 			callee := calleeFunc(&call.Call)
-			if callee == nil {
-				return
-			}
-			// conversions and execution: ToQuery, toExpr, Execute, and any other error-returning function of the conversion package
-			isConv := c.w.pkgPathOf(callee) == pkgConvert && callee.Signature.Results().Len() == 2 && isErrorType(callee.Signature.Results().At(1).Type())
-			if callee != c.a.ToQuery && callee != c.a.ToExpr && callee != c.a.Execute && !isConv {
+			if callee == nil || !isSrc(callee) {
 				return
 			}
 			k++
